@@ -20,7 +20,8 @@ func init() {
 			"(C) completion: Completed=true is set on the request that was read, before it is written back; the pending query filters Completed=false on the kind of the same backend; " +
 			"(H) no call hangs: every error channel has capacity ≥ the maximum number of sends that can happen (path-sensitive count over the function plus its goroutines; loop-spawned senders vs. a capacity equal to the loop bound); WaitGroup Add(n) equals the goroutines that defer Done; both wait loops select on a context derived from context.WithTimeout(constant) and return; the time-out maps to 504. " +
 			"(S) cache keys are injective in (backend ID, request ID) and built from the same roles on both sides; (R) the GET response cache key is injective in (user, URL), one value for lookup and store, GET only. " +
-			"(I, second part) nothing parses the form or reads the body of the client's request before r.Write serialises it.",
+			"(I, second part) nothing parses the form or reads the body of the client's request before r.Write serialises it." +
+			" (H, second part) no cycle of a wait loop avoids the Done select and the 504 is reported on every path of the failure branch; (S, second part) the caching store delegates with its own parameters, context included.",
 		Assumptions: []string{"datastore GetMulti returns entities in key order; memcache/datastore round-trip byte slices"},
 		Run:         runC19,
 	})
